@@ -956,9 +956,11 @@ def lockstep(ops, ctx, nproj=2, check_handles=True, stop_at_first=True):
                     if name != op[1] and (hd["g"] != pre["g"] or k == "remove") and (hd["p"], ref_id(hd["sp"])) == old:
                         stale.add(name)
                         doc_clean.discard(name)
-                        if k == "remove" and doc_obj.get(op[1]) is not None and doc_obj.get(name) == doc_obj[op[1]]:
-                            # remove() empties the document object of the removing handle; a shallow copy that
-                            # shares that object holds no stale data (outside the class of F-5c)
+                        if k == "remove" and old[1] in pm_before[old[0]] and doc_obj.get(op[1]) is not None \
+                                and doc_obj.get(name) == doc_obj[op[1]]:
+                            # remove() of an EXISTING job empties the document object of the removing handle; a
+                            # shallow copy that shares that object holds no stale data (outside the class of F-5c).
+                            # remove() of a job that is not there (stale handle) empties nothing.
                             doc_clean.add(name)
                 # Job._initialize_lazy_properties: a re-key drops the document object of every job of the group, a
                 # move that of the moving handle, a remove that of the removing handle (the next use builds a new one)
